@@ -979,6 +979,8 @@ type candidates struct {
 	attempts    map[string]int
 	notes       []string
 	pending     []pendingCand
+	late        map[string][]int // per class: the slots of pending that hold the most recent candidates
+	lateNext    map[string]int
 }
 
 type pendingCand struct {
@@ -1002,6 +1004,31 @@ func (c *candidates) consider(x *Explorer, rep *Report, sc *Scenario, s *E1State
 		max = 80 // safety candidates: many contents show the same violation; some of them are exact-reachable
 	}
 	if c.attempts[class] >= max {
+		// keep the first half (the shallowest states, shortest schedules) and, of the rest, the most recent ones: the
+		// search is breadth-first, so those are the deepest states – the ones in which every other request of the
+		// scenario has run its course too, which FIFO queues often require
+		if c.late == nil {
+			c.late = map[string][]int{}
+			c.lateNext = map[string]int{}
+		}
+		slots := c.late[class]
+		if len(slots) == 0 {
+			n := 0
+			for i := range c.pending {
+				if c.pending[i].class == class && c.pending[i].then == nil {
+					n++
+					if n > max/2 {
+						slots = append(slots, i)
+					}
+				}
+			}
+			c.late[class] = slots
+		}
+		if len(slots) > 0 {
+			i := slots[c.lateNext[class]%len(slots)]
+			c.lateNext[class]++
+			c.pending[i] = pendingCand{s: s, class: class, what: what, check: check}
+		}
 		return
 	}
 	c.attempts[class]++
